@@ -2207,7 +2207,9 @@ class Projection(Elemwise):
     def _simplify_down(self):
         if (
             str(self.frame.columns) == str(self.columns)
-            and self._meta.ndim == self.frame._meta.ndim
+            # the meta of a scalar taken from an object Series is a plain Python
+            # object without ``ndim``
+            and getattr(self._meta, "ndim", 0) == self.frame._meta.ndim
         ):
             # TODO: we should get more precise around Expr.columns types
             return self.frame
